@@ -37,12 +37,7 @@ N_VARIANTS = {"quick": 6, "thorough": 14}
 OPTS = {"no_loopy": True}
 
 
-class _Timeout(Exception):
-    pass
-
-
-def _alarm(signum: int, frame: Any) -> None:
-    raise _Timeout()
+_Timeout = common.Timeout
 
 
 def plan(tier: str, seed: int) -> list[dict[str, Any]]:
@@ -450,12 +445,11 @@ def check_case(case: dict[str, Any], col: common.Collector) -> None:
 
 
 def run_shard(shard: dict[str, Any], col: common.Collector) -> None:
-    old = signal.signal(signal.SIGALRM, _alarm)
     for case in shard["cases"]:
-        signal.alarm(180)
         try:
-            check_case(case, col)
-        except _Timeout:
+            with common.time_limit(180):
+                check_case(case, col)
+        except common.Timeout:
             col.count("program_timeouts")
         except Exception as e:  # noqa: BLE001
             import traceback
@@ -464,8 +458,7 @@ def run_shard(shard: dict[str, Any], col: common.Collector) -> None:
                           f"unexpected {type(e).__name__}: {str(e)[:200]}",
                           {"case": case, "tb": traceback.format_exc()[-2000:]})
         finally:
-            signal.alarm(0)
-    signal.signal(signal.SIGALRM, old)
+            pass
 
 
 def replay(witness: dict[str, Any], col: common.Collector) -> None:
